@@ -67,7 +67,7 @@ def nonfinite_outside_ids(value):
     entries = value if type(value) is list else [value]
     for e in entries:
         if type(e) is dict:
-            if any(_has_nonfinite(v) for k, v in e.items() if k != "id" or type(v) in (list, dict)):
+            if any(_has_nonfinite(v) for k, v in e.items() if k != "id"):
                 return True
         elif _has_nonfinite(e):
             return True
@@ -76,7 +76,7 @@ def nonfinite_outside_ids(value):
 
 def nonfinite_id(value):
     entries = value if type(value) is list else [value]
-    return any(type(e) is dict and _nonfinite(e.get("id")) for e in entries)
+    return any(type(e) is dict and _has_nonfinite(e.get("id")) for e in entries)
 
 
 # ---------------------------------------------------------------------------
@@ -201,7 +201,7 @@ def ref_entry(entry, reg, server_version):
     if type(entry) is not dict:
         return Entry("invalid:not-object", Exp("error", "invalid", None, (-32600,), form=None))
     eid = entry.get("id") if "id" in entry else None
-    if _nonfinite(eid):
+    if _has_nonfinite(eid):
         # an id that JSON cannot carry back (a numeral beyond the double range): not a usable id
         return Entry("invalid:id-not-representable", Exp("error", "invalid", None, (-32600,)))
     if "jsonrpc" not in entry and "id" not in entry:
